@@ -55,15 +55,21 @@ def read_derived(ph, kind):
     return np.concatenate([np.ravel(d["frequency_points"]), np.ravel(d["total_dos"])])
 
 
-def run_derived(ph, kind):
+TP_OPTS = [dict(), dict(classical=True), dict(cutoff_frequency=1.5), dict(band_indices=[[0, 1]]), dict(classical=True, cutoff_frequency=1.5),
+           dict(pretend_real=True)]
+DOS_OPTS = [dict(), dict(sigma=0.15), dict(use_tetrahedron_method=False), dict(freq_min=0.0, freq_max=12.0, freq_pitch=0.5),
+            dict(sigma=0.3, freq_min=-1.0, freq_max=9.0, freq_pitch=0.25)]
+
+
+def run_derived(ph, kind, opt=0):
     if kind == "mesh":
         ph.run_mesh(MESH)
     elif kind == "band":
         ph.run_band_structure(BAND_PATH)
     elif kind == "tp":
-        ph.run_thermal_properties(t_min=0, t_max=300, t_step=100)
+        ph.run_thermal_properties(t_min=0, t_max=300, t_step=100, **TP_OPTS[opt])
     else:
-        ph.run_total_dos()
+        ph.run_total_dos(**DOS_OPTS[opt])
     return read_derived(ph, kind)
 
 
@@ -315,10 +321,10 @@ class World:
         return r
 
     # ---- a freshly constructed object
-    def fresh(self, fc, nac, masses, gv, fsf=False, kind=None):
+    def fresh(self, fc, nac, masses, gv, fsf=False, kind=None, opt=0):
         """results of a freshly constructed object; kind None: run_qpoints (gv: with group velocities);
         kind in DERIVED: run_mesh (+ run_thermal_properties / run_total_dos) or run_band_structure"""
-        key = (kind, fsf, np.asarray(fc).tobytes(), None if nac is None else (np.asarray(nac["born"]).tobytes(), np.asarray(nac["dielectric"]).tobytes(),
+        key = (kind, opt, fsf, np.asarray(fc).tobytes(), None if nac is None else (np.asarray(nac["born"]).tobytes(), np.asarray(nac["dielectric"]).tobytes(),
                float(nac["factor"]), nac.get("method", "gonze")), np.asarray(masses).tobytes(), gv)
         if key in self._fresh:
             return self._fresh[key]
@@ -330,7 +336,7 @@ class World:
         if kind is not None:
             if kind in ("tp", "dos"):
                 p.run_mesh(MESH)
-            r = (run_derived(p, kind), None)
+            r = (run_derived(p, kind, opt), None)
         elif gv:
             p.run_qpoints(QS_GV, with_group_velocities=True)
             r = (p.qpoints.frequencies.copy(), p.qpoints.group_velocities.copy(), gv_config(p))
@@ -360,7 +366,7 @@ def op_text(op):
     if k in ("sym", "cut", "setmasses", "setforces", "setenergies", "producewith", "generate"):
         return "%s %d" % (k, op[1])
     if k == "q":
-        return "q %s" % op[1]
+        return "q %s" % op[1]     # (an option index op[2] of run_thermal_properties / run_total_dos is not part of the model)
     return k
 
 
@@ -421,6 +427,7 @@ def run_impl(w, ops, viol, fsf=False):
     snaps = {}         # step -> snapshot of caller-created content (no_alias_in)
     built = {}         # id(dm) -> (dm, gonze array, fc values at build time)
     tainted = False    # a caller mutation reached the object's state earlier in this history
+    last_opt = {}      # options of the last successful run_thermal_properties / run_total_dos
     steps = []
 
     def reachable(o):
@@ -461,10 +468,9 @@ def run_impl(w, ops, viol, fsf=False):
                     out = ("err", "badRef")
                 else:
                     ph.force_constants = objs[op[1]]
-            elif k == "produce":
-                ph.produce_force_constants()
-            elif k == "producec":
-                ph.produce_force_constants(calculate_full_force_constants=False)
+            elif k in ("produce", "producec"):
+                ph.produce_force_constants(calculate_full_force_constants=(k == "produce"))
+                check_produced(w, ph, k == "producec", viol, si, tainted)
             elif k == "generate":
                 ph.generate_displacements(distance=0.01 * (op[1] + 1))
             elif k in ("setforces", "producewith"):
@@ -473,6 +479,7 @@ def run_impl(w, ops, viol, fsf=False):
                     ph.forces = handed
                 else:
                     ph.produce_force_constants(forces=handed)
+                    check_produced(w, ph, False, viol, si, tainted)
                 if not close(handed, w.force_pool[op[1]], 0.0):
                     viol("Phonopy.forces setter", "caller-forces-modified", "the force array handed in was modified", si)
             elif k == "setenergies":
@@ -606,11 +613,14 @@ def run_impl(w, ops, viol, fsf=False):
                     out = out + (bad,)
                 elif what in DERIVED or (what.startswith("get") and what[3:] in DERIVED):
                     dk = what if what in DERIVED else what[3:]
-                    arr = run_derived(ph, dk) if what in DERIVED else read_derived(ph, dk)
-                    out = ("dv", dk, None if arr is None else arr.copy())
+                    opt = op[2] if len(op) > 2 else 0
+                    arr = run_derived(ph, dk, opt) if what in DERIVED else read_derived(ph, dk)
+                    if what in DERIVED and arr is not None:
+                        last_opt[dk] = opt
+                    out = ("dv", dk, None if arr is None else arr.copy(), last_opt.get(dk, 0))
                     # ---- the property itself: the result object equals that of a fresh object in the current state
                     if arr is not None and ph.dynamical_matrix is not None:
-                        fr = w.fresh(ph.force_constants, ph.nac_params, ph.masses, False, fsf, kind=dk)[0]
+                        fr = w.fresh(ph.force_constants, ph.nac_params, ph.masses, False, fsf, kind=dk, opt=last_opt.get(dk, 0))[0]
                         if not close(arr, fr, 1e-6):
                             if tainted:
                                 viol("Phonopy.run_qpoints", "stale-after-aliased-mutation",
@@ -736,6 +746,7 @@ def run_impl(w, ops, viol, fsf=False):
         gvo = ph.group_velocity
         dg["gv"] = "-" if gvo is None else ("cur" if gvo._dynmat is dm else "stale")
         dg["derived"] = {dk: read_derived(ph, dk) for dk in DERIVED}
+        dg["derived_opt"] = dict(last_opt)
         from phonopy.phonon.group_velocity import GroupVelocity
 
         def qtok(x):
@@ -746,6 +757,18 @@ def run_impl(w, ops, viol, fsf=False):
         dg["fcref"] = sorted(j for j, o in enumerate(objs) if o is not None and o is fco)
         steps.append(dict(out=out, flag=flag, dg=snapshot(dg)))
     return steps
+
+
+def check_produced(w, ph, compact, viol, si, tainted):
+    """the property itself for produce_force_constants: the force constants are those a freshly constructed object
+    produces from the object's final dataset"""
+    p = w.new_phonopy()
+    p.dataset = _copy.deepcopy(ph.dataset)
+    p.produce_force_constants(calculate_full_force_constants=not compact)
+    if not close(ph.force_constants, p.force_constants, 1e-9):
+        d = float(np.abs(np.asarray(ph.force_constants) - p.force_constants).max()) if np.shape(ph.force_constants) == np.shape(p.force_constants) else float("inf")
+        viol("Phonopy.produce_force_constants", "stale-after-aliased-mutation" if tainted else "fc-not-from-current-dataset",
+             "produce_force_constants() returned force constants that differ by %.3g from those a fresh object produces from ph.dataset" % d, si)
 
 
 def snapshot(dg):
@@ -949,6 +972,43 @@ def masses_of(w, tok):
     return w.start_masses if int(tok) == 1000 else w.mass_pool[int(tok)]
 
 
+def refit_history(rng, w, cls):
+    """forces assigned through the attribute, produce, other forces, produce again (and variations)"""
+    ops = []
+    if rng.random() < 0.5:
+        ops.append(("generate", rng.randrange(3)))
+    else:
+        ops += [("new", "ds", rng.randrange(len(w.ds_pool)), 1), ("setds", len(ops))]
+    if cls != "plain":
+        ops += [("new", "nac", 1 if cls == "wang" else 0, 1), ("setnac", len(ops))]
+    f1 = rng.randrange(4)
+    f2 = (f1 + 1 + rng.randrange(3)) % 4
+    first = rng.choice([[("setforces", f1), ("produce",)], [("setforces", f1), ("producec",)], [("producewith", f1)]])
+    ops += first
+    mid = rng.choice([[], [("q", "freq")], [("setenergies", rng.randrange(3))], [("q", "disps")], [("sym", 1)], [("q", "freq"), ("setmasses", rng.randrange(3))]])
+    ops += mid
+    ops += [("setforces", f2), rng.choice([("produce",), ("producec",)] if w.np_ != w.ns else [("produce",)]), ("q", "freq")]
+    if rng.random() < 0.5:
+        ops += [("setforces", f1), ("produce",), ("q", "freq")]
+    return ops
+
+
+def options_history(rng, w, cls):
+    """one mesh, result objects asked repeatedly with changed options"""
+    ops = list(prefix_for(cls)) + [("q", "mesh")]
+    for _ in range(rng.randint(3, 6)):
+        r = rng.random()
+        if r < 0.5:
+            ops.append(("q", "tp", rng.randrange(len(TP_OPTS))))
+        elif r < 0.85:
+            ops.append(("q", "dos", rng.randrange(len(DOS_OPTS))))
+        else:
+            ops.append(("q", rng.choice(["gettp", "getdos", "getmesh"])))
+    # quantum then classical (and back) on the same mesh
+    ops += [("q", "tp", 0), ("q", "tp", 1), ("q", "tp", 0), ("q", "dos", 0), ("q", "dos", 1)]
+    return ops
+
+
 def noop_history(rng, w, cls):
     """[..., q freq, masses = the masses it has, q freq]"""
     ops = [("new", "fc", rng.randrange(3), 1), ("setfc", 0)]
@@ -966,13 +1026,13 @@ def noop_history(rng, w, cls):
     return ops
 
 
-def derived_expected(w, body, dk, fsf):
+def derived_expected(w, body, dk, fsf, opt=0):
     """numbers of result object `dk` of a fresh object with the parameters of the model snapshot `cls:fc:nac:m`"""
     cls, fct, nact, mt = body.split(":")
     nac = None if nact == "-" else dict(w.nac_term(int(nact)))
     if nac is not None:
         nac["method"] = "wang" if cls == "wang" else "gonze"
-    return w.fresh(w.fc_term(int(fct)), nac, masses_of(w, mt), False, fsf, kind=dk)[0]
+    return w.fresh(w.fc_term(int(fct)), nac, masses_of(w, mt), False, fsf, kind=dk, opt=opt)[0]
 
 
 def parse_model(line):
@@ -1045,13 +1105,13 @@ def compare(w, m0, ops, impl, model, mism):
                 if out[2] is not None:
                     mism("model: no stored %s object, implementation has one" % out[1], si)
             else:
-                exp = derived_expected(w, body, out[1], False)
+                exp = derived_expected(w, body, out[1], False, out[3])
                 if out[2] is None or not close(out[2], exp, 1e-6):
-                    mism("stored %s object differs from the model's snapshot %s" % (out[1], body), si)
+                    mism("stored %s object differs from the model's snapshot %s (options %d)" % (out[1], body, out[3]), si)
         elif head == "ph" and out[0] == "dv":
-            exp = derived_expected(w, mout[3:], out[1], False)
+            exp = derived_expected(w, mout[3:], out[1], False, out[3])
             if out[2] is None or not close(out[2], exp, 1e-6):
-                mism("run_%s result differs from the model's prediction %s" % (out[1], mout), si)
+                mism("run_%s (options %d) result differs from the model's prediction %s" % (out[1], out[3], mout), si)
         elif head == "ph":
             body = mout[3:]
             parts = body.split("/")
@@ -1123,7 +1183,7 @@ def compare(w, m0, ops, impl, model, mism):
                     mism("implementation keeps a %s object, model has none" % dk, si)
             elif got is None:
                 mism("model keeps a %s object (%s), implementation has none" % (dk, tok), si)
-            elif not close(got, derived_expected(w, tok, dk, False), 1e-6):
+            elif not close(got, derived_expected(w, tok, dk, False, dg.get("derived_opt", {}).get(dk, 0)), 1e-6):
                 mism("the kept %s object was computed from other parameters than the model's snapshot %s" % (dk, tok), si)
         exp_ref = [] if mdg["fcref"] == "-" else sorted(refs_of.get(int(mdg["fcref"]), []))
         if exp_ref != dg["fcref"]:
@@ -1178,6 +1238,8 @@ def symbols(cls, n0, full):
             "mesh": lambda p: [("q", "mesh")],
             "band": lambda p: [("q", "band")],
             "tp": lambda p: [("q", "tp")],
+            "tp-classical": lambda p: [("q", "tp", 1)],
+            "dos-sigma": lambda p: [("q", "dos", 1)],
             "dos": lambda p: [("q", "dos")],
             "getmesh": lambda p: [("q", "getmesh")],
             "gettp": lambda p: [("q", "gettp")],
@@ -1193,7 +1255,7 @@ def expand(prefix, word, syms):
     for s in word:
         ops += syms[s](len(ops))
     ops += [("q", "freq"), ("q", "gv")]
-    if any(sy in ("mesh", "band", "tp", "dos", "getmesh", "gettp") for sy in word):
+    if any(sy in ("mesh", "band", "tp", "dos", "getmesh", "gettp", "tp-classical", "dos-sigma") for sy in word):
         ops += [("q", "getmesh"), ("q", "getband"), ("q", "gettp"), ("q", "getdos")]
     return ops
 
@@ -1265,7 +1327,13 @@ def random_history(rng, w, length):
         elif r < 0.84:
             ops.append(("q", rng.choice(["masses", "disps"])))
         elif r < 0.92:
-            ops.append(("q", rng.choice(["mesh", "mesh", "band", "tp", "dos", "getmesh", "getband", "gettp", "getdos"])))
+            what = rng.choice(["mesh", "mesh", "band", "tp", "tp", "dos", "dos", "getmesh", "getband", "gettp", "getdos"])
+            if what == "tp":
+                ops.append(("q", "tp", rng.randrange(len(TP_OPTS))))
+            elif what == "dos":
+                ops.append(("q", "dos", rng.randrange(len(DOS_OPTS))))
+            else:
+                ops.append(("q", what))
         else:
             ops.append(("q", rng.choice(["freq", "freq", "gv"])))
     ops.append(("q", "freq"))
@@ -1473,6 +1541,12 @@ def main(run):
     for i in range(40 if thorough else 6):
         w = worlds[i % 2]
         cases.append((w, random_history(rng, w, rng.randint(4, 16)), "random-fsf", None, True))
+    # refits after new forces; result objects asked again with other options on the same mesh
+    for i in range(90 if thorough else 12):
+        w = worlds[i % 2]
+        cls = ("plain", "wang", "gl")[i % 3]
+        cases.append((w, refit_history(rng, w, cls), "refit", None, False))
+        cases.append((w, options_history(rng, w, cls), "result-object options", None, False))
     # objects constructed with group_velocity_delta_q, and gv queries across class switches
     for i in range(60 if thorough else 9):
         w = worlds[i % 2]
